@@ -540,6 +540,21 @@ func properties() map[string]*propDef {
 					out = append(out, item{Harness: "H_C13_read", Cfg: []int{enc, prov}, Label: "request Content-Encoding (none, gzip, deflate), provider"})
 				}
 			}
+			// value level under concurrency: interleaving exploration through the ledger
+			pre := 2
+			if tier == "thorough" {
+				pre = 3
+			}
+			for prov := 0; prov < 3; prov++ {
+				for kind := 0; kind < 5; kind++ {
+					for _, nt := range threads {
+						if nt == 3 && kind >= 3 {
+							continue
+						}
+						out = append(out, item{Harness: "H_C13_sched", Cfg: []int{prov, nt, kind, pre}, Label: "interleaving exploration: provider, threads, kind (gzip writer, zlib writer, gzip reader: acquire-work-release; 3/4: encoded responses through a container, gzip/deflate), preemption bound"})
+					}
+				}
+			}
 			// the ledger around encoded responses: every entry point and outcome kind, all providers
 			for entry := 0; entry < 4; entry++ {
 				for kind := 0; kind < 4; kind++ {
@@ -554,10 +569,11 @@ func properties() map[string]*propDef {
 			return out
 		},
 		Bounds: map[string]interface{}{"threads": "2 (thorough 3), each Acquire then Release once", "cache_capacity": "0..2", "initial_fill": "0..capacity",
-			"sequential": "ledger provider around the real providers on every C07 outcome kind and on two consecutive ReadEntity calls"},
+			"sequential": "ledger provider around the real providers on every C07 outcome kind and on two consecutive ReadEntity calls",
+			"interleavings": "H_C13_sched: 2 (thorough 3) threads using a provider through the ledger, or 2 encoded responses in flight; context switches at every provider call and lock acquisition, <= 2 (thorough 3) preemptions"},
 		Assumptions: append([]string{"event-order encoding: each thread body runs alone in recording mode; channel operations get symbolic results that the schedule formula constrains (len = initial + sends before - receives before; send enabled iff below capacity); timestamps are 8-bit vectors",
 			"the Go memory model is not modelled: channel operations are atomic events", "sync.Pool is a multiset stub (its internals are trusted); SyncPoolCompessors is only covered sequentially",
-			"'never hands out an object still in use' follows structurally (an object enters the channel only in Release*, each acquired object is released once - checked by the ledger); it is not a separate schedule query",
+			"'never hands out an object still in use' and 'concurrent encoded responses each decode to their own payload' are decided on the value level by bounded interleaving exploration (DESIGN 2.8b) with switch points at provider calls (each call of the shipped providers performs one channel or pool operation) and lock acquisitions; interleavings inside one provider call are left to the event-order queries",
 			"a blocked-forever schedule is confirmed natively by running the threads up to 400 times with a watchdog"}, commonAssumptions...),
 		Rule:           "bounded cache: capacity x initial fill x thread count x object kind, all schedules decided by one stuck-state query per combination of thread paths; sequential: ledger over encoded responses and request decoding for all three providers",
 		RequiredCovers: []string{"threads-analysed", "ran", "read", "encoded"},
